@@ -315,3 +315,35 @@ Definition tg_append (A B : tg) (only : bool) : res tg :=
       fold_res (append_one ma mn mx B) final g1
   | _, _, _ => Err PyError
   end.
+
+(* ---------------- praatio_scripts.alignBoundariesAcrossTiers ---------------- *)
+
+Definition timestamps_of (t : tier) : list Z :=
+  match t with TI t => timestamps_i t | TP t => timestamps_p t end.
+
+Definition dejitter_tier (t : tier) (refs : list Z) (d : Z) : res tier :=
+  match t with TI t => do x <- dejitter_i t refs d; Ok (TI x) | TP t => do x <- dejitter_p t refs d; Ok (TP x) end.
+
+(* the guard of the source compares neighbours from the SECOND reference time on: zip(times[1:], times[2:]) *)
+Fixpoint too_close (d : Z) (l : list Z) : bool :=
+  match l with
+  | a :: ((b :: _) as l') => (b - a <? d) || too_close d l'
+  | _ => false
+  end.
+
+Definition align_one (n : text) (refs : list Z) (d : Z) (g : tg) (t : tier) : res tg :=
+  if text_eqb (tname t) n then Ok g else
+  do t' <- dejitter_tier t refs d;
+  match replace_step g (tname t') t' RWarning with
+  | (Ok _, g') => Ok g'
+  | (Err e, _) => Err e
+  end.
+
+Definition tg_align (g : tg) (n : text) (d : Z) : res tg :=
+  match find_tier n (tiers g) with
+  | None => Err PyError                                   (* KeyError *)
+  | Some ref =>
+      let refs := timestamps_of ref in
+      if too_close d (tl refs) then Err ArgumentError
+      else fold_res (align_one n refs d) (tiers g) g
+  end.
